@@ -216,8 +216,21 @@ def solve_once(cls, mms, ext, n, kappa, bckinds, tset, tmode, lam, lunit=1.0, or
                 psi = np.broadcast_to(mms.psi(q), [1 if i == k else g.dims[i] for i in range(nd)])
                 dn = np.broadcast_to(mms.dpsi(k, q) / hfun(cls, k, q), psi.shape)
                 kind, a0, b0 = bckinds[side]
-                a = np.full(psi.shape, a0) * (1 + 0.2 * np.cos(3 * psi)) if kind == 'R' else np.full(psi.shape, a0)
+                a = np.full(psi.shape, a0) * (1 + 0.2 * np.cos(3 * psi)) if kind in ('R', 'M') else np.full(psi.shape, a0)
                 b = np.full(psi.shape, b0)
+                if kind == 'M':
+                    # mixed face: fixed value on one part of the face (a = 0, b = 1), Robin on the rest, the Robin part written with
+                    # either overall sign (the relation a*dphi/dn + b*phi = c is the same one)
+                    sg = -1.0 if (k + j) % 2 == 0 else 1.0
+                    a, b = sg * a, sg * b
+                    tang = [i for i in range(nd) if i != k]
+                    if tang:
+                        part = np.zeros(psi.shape, dtype=bool)
+                        idx = [slice(None)] * nd
+                        idx[tang[0]] = slice(0, max(1, psi.shape[tang[0]] // 2))
+                        part[tuple(idx)] = True
+                        a = np.where(part, 0.0, a)
+                        b = np.where(part, 1.0, b)
                 c = (a * dn + b * psi) * mms.g(t)
                 sh = g.side_shape(k)
                 f = getattr(BC, side)
@@ -268,6 +281,12 @@ def solve_once(cls, mms, ext, n, kappa, bckinds, tset, tmode, lam, lunit=1.0, or
                     Mt = Mt + t_
                 fmt_ = ['csc', 'coo', 'lil'][int(n[0]) % 3]
                 phi = pf.solveMatrixPDE(m, getattr(sp_.csr_array(Mt), 'to' + fmt_)(), np.asarray(bbc) + src_vec)
+            elif route == 'zero-alpha':
+                # the steady equation written as the alpha -> 0 member of the documented family alpha*dphi/dt + ... : a storage
+                # coefficient of exactly zero (python int / float / numpy scalar / per-cell zeros) contributes nothing
+                a0_ = [0, 0.0, np.float64(0.0), pf.CellVariable(m, 0.0)][int(n[0] + len(terms0)) % 4]
+                old_ = pf.CellVariable(m, 7.0 + np.cos(np.arange(int(np.prod(g.dims)))).reshape(g.dims), BC)
+                pf.solvePDE(phi, [pf.transientTerm(old_, 0.37, a0_)] + terms0 + [src_vec])
             else:
                 pf.solvePDE(phi, terms0 + [src_vec])
             exact = psi_c * mms.g(0.0)
@@ -320,7 +339,7 @@ def run_case(case):
             elif kind == 'N':
                 bckinds[side] = ('N', 1.0, 0.0)
             else:
-                bckinds[side] = ('R', float(rng.uniform(0.5, 1.5)), float(rng.uniform(0.5, 1.5)) * (-1.0 if j == 0 else 1.0))
+                bckinds[side] = (kind, float(rng.uniform(0.5, 1.5)), float(rng.uniform(0.5, 1.5)) * (-1.0 if j == 0 else 1.0))
     if 'central' in tset or 'upwind' in tset:
         # keep the CONTINUOUS problem well conditioned: on the inflow side of every axis use Dirichlet data or a coercive Robin
         # condition D*dphi/dn + kappa*phi = g with kappa >= |u.n| (a Neumann / weak Robin inflow condition makes the
@@ -428,7 +447,8 @@ def plan(tier, seed):
                       ('graded', 'NDNRND', 'D+upwind', 'steady', [1, 1, 1]),
                       ('graded', 'DRRNDR', 'D+upwind', 'steady', [1, -1, 1], 'high'),
                       ('graded', 'NRRDDR', 'D', 'dt~h2' if nd < 3 else 'steady'), ('uniform', 'DDRRNN', 'D+src', 'steady'),
-                      ('graded', 'RNNRRN', 'D+central+src', 'steady')]
+                      ('graded', 'RNNRRN', 'D+central+src', 'steady'),
+                      ('graded', 'MMMMMM', 'D+src', 'steady'), ('uniform', 'MDNMRM', 'D', 'steady')]
             if nd < 3:
                 combos.append(('graded', 'RNDRDN', 'D+central+src', 'dt~h'))
                 combos.append(('graded', 'DRRDNR', 'D+upwind', 'steady', [-1, 1, -1]))
@@ -438,13 +458,13 @@ def plan(tier, seed):
             for spacing in ('uniform', 'graded'):
                 for tset in TSETS + ['D+upwind+src']:
                     for rep in range(6 if nd < 3 else 2):
-                        bc = ''.join(rng.choice(['D', 'N', 'R'], 6))
+                        bc = ''.join(rng.choice(['D', 'N', 'R', 'M'], 6))
                         combos.append((spacing, bc, tset, 'steady', [int(x) for x in rng.choice([-1, 1], 3)], 'high' if rep % 3 == 2 else 'moderate'))
                 for tset in ('D', 'D+central', 'D+upwind'):
                     for tmode in ('dt~h2', 'dt~h'):
                         if nd == 3 and tmode == 'dt~h2':
                             continue
-                        bc = ''.join(rng.choice(['D', 'N', 'R'], 6))
+                        bc = ''.join(rng.choice(['D', 'N', 'R', 'M'], 6))
                         combos.append((spacing, bc, tset, tmode))
         for combo in combos:
             spacing, bc, tset, tmode = combo[:4]
@@ -457,7 +477,7 @@ def plan(tier, seed):
             # before the diffusion matrix on the shared mesh (every second case)
             lunit = [None, None, 1e-8, None, None, None, 1e6][i % 7] if tier == 'quick' else [None, 1e-8, None, 3e-10, 1e6][i % 5]
             cases.append({'cls': cls, 'spacing': spacing, 'bc': list(bc), 'tset': tset, 'tmode': tmode, 'n0': n0, 'usign': usign, 'pe': pe, 'seed': [seed, 2, ci, i],
-                          'lunit': lunit, 'order': 'adv-first' if i % 2 else 'diff-first', 'route': ['plain', 'list-twice', 'matrix'][i % 3] if tmode == 'steady' else 'plain'})
+                          'lunit': lunit, 'order': 'adv-first' if i % 2 else 'diff-first', 'route': ['plain', 'list-twice', 'matrix', 'zero-alpha'][i % 4] if tmode == 'steady' else 'plain'})
             i += 1
     # strips (one cell across, both orientations, flow along the strip and across it) and periodic axes (full circle / periodic box)
     for ci, cls in enumerate(CLASSES):
@@ -495,7 +515,7 @@ def floors(agg, tier):
     for cls in CLASSES:
         if agg['cov'].get('cases:' + cls, 0) < 4:
             out.append('cases:%s < 4' % cls)
-    for k in ('route:list-twice', 'route:matrix', 'strip:yes', 'periodic:yes', 'length_unit:small', 'length_unit:large', 'order:adv-first', 'order:diff-first', 'bc:D', 'bc:N', 'bc:R', 'spacing:uniform', 'spacing:graded', 'tset:D', 'tset:D+central', 'tset:D+src', 'tmode:steady'):
+    for k in ('route:list-twice', 'route:matrix', 'route:zero-alpha', 'bc:M', 'strip:yes', 'periodic:yes', 'length_unit:small', 'length_unit:large', 'order:adv-first', 'order:diff-first', 'bc:D', 'bc:N', 'bc:R', 'spacing:uniform', 'spacing:graded', 'tset:D', 'tset:D+central', 'tset:D+src', 'tmode:steady'):
         if agg['cov'].get(k, 0) < 3:
             out.append('%s < 3' % k)
     if agg['cov'].get('tmode:dt~h2', 0) + agg['cov'].get('tmode:dt~h', 0) < 3:
